@@ -254,6 +254,8 @@ PLAN["C05"] = {
     "verus": [dict(STACK, functions=["exception_stream_write"], tags=["C05"])],
     "kani": [{"tiers": Q, "jobs": 2, "timeout": 1200, "harnesses": K_REGS_CRASH},
              {"tiers": T, "jobs": 2, "timeout": 3600, "mem_gb": 24, "harnesses": K_TLS}],
+    "native_files": [{"name": "c05_blamed", "tiers": Q, "tests": {
+        "crash_context_for_a_secondary_thread": H("B'", "MinidumpWriter::dump on a live 3-thread child, crash context for a non-main thread; and without a crash context", "one child, marker registers")}}],
     "trusted": ["ds/es/ss do not exist in a ucontext: stated, not claimed", "stand-in for crash_context::CrashContext's siginfo fields in the Verus prelude"],
     "samples": ["exception_stream::write ensures exists e. image' == image + ser(e) && exc_matches(e, config)  [C05]"],
 }
